@@ -26,6 +26,7 @@ def rule_tmp_only(ctx):
     r = ctx.rule("tmp-only", "in do_source_file the only write-mode open takes filename_tmp, which on the in==out edge has a "
                  "non-empty literal suffix appended on every path")
     f = db.fn("do_source_file", file=UNC)
+    r.names(f, "pfout", "filename_in", "filename_out", "filename_tmp", "need_backup", "did_open")
     opens = [n for n in f.all_nodes() if is_write_open(f, n)]
     r.require(opens, "do_source_file has no write-mode fopen")
     appends = [n for n in f.all_nodes() if n["k"] == "call" and n.get("op") == "+=" and expr_str(f, n.get("o")) == "filename_tmp"]
@@ -162,6 +163,7 @@ def rule_output_or_exit(ctx):
     # the caller: nothing between the uncrustify_file() call and the rename decision looks at a failure indication, so the
     # above is the only protection; and the call is made with the stream that is renamed later
     f = db.fn("do_source_file", file=UNC)
+    r.names(f, "pfout", "filename_in", "filename_out", "filename_tmp", "need_backup", "did_open")
     calls = db.calls_in(f, "uncrustify_file")
     r.require(calls, "do_source_file does not call uncrustify_file")
     for c in calls:
@@ -174,6 +176,7 @@ def rule_order(ctx):
     r = ctx.rule("order", "backup (unless no_backup) precedes the temp open; backup failure exits non-zero; close precedes rename "
                  "with no write in between")
     f = db.fn("do_source_file", file=UNC)
+    r.names(f, "pfout", "filename_in", "filename_out", "filename_tmp", "need_backup", "did_open")
     opens = [n for n in f.all_nodes() if is_write_open(f, n)]
     backups = db.calls_in(f, "backup_copy_file")
     renames = [n for n in f.all_nodes() if n["k"] == "call" and n.get("c") in ("rename", "MoveFileEx", "MoveFileExA")]
@@ -283,6 +286,7 @@ def rule_write_error_checked(ctx):
     r = ctx.rule("write-error-checked", "rename is controlled by a clean fclose(pfout)/ferror(pfout); the failing edge exits non-zero "
                  "without renaming")
     f = db.fn("do_source_file", file=UNC)
+    r.names(f, "pfout", "filename_in", "filename_out", "filename_tmp", "need_backup", "did_open")
     rd = ReachingDefs(f, db)
     renames = [n for n in f.all_nodes() if n["k"] == "call" and n.get("c") in ("rename", "MoveFileEx", "MoveFileExA")]
     r.require(renames, "no rename in do_source_file")
